@@ -122,7 +122,19 @@ def r5_1(ctx):
             def count(facts):
                 return max([x[1] for x in facts if isinstance(x, tuple) and x[0] == 'inc'] or [0])
 
-            def step(n, facts, f=f, want=want):
+            rvars = set()
+            for n in f.all_nodes():
+                if n['k'] == 'ret' and n.get('c'):
+                    e = cu.strip_casts(f, f.kid(n, 0))
+                    if e is not None and e['k'] == 'ref':
+                        rvars.add(e['name'])
+            ct = paths.CondTracker(f, extra=sorted(rvars))
+
+            def edge(b, term, cond, idx, succ, facts, ct=ct):
+                return ct.on_edge(term, cond, idx, facts)
+
+            def step(n, facts, f=f, want=want, ct=ct):
+                facts = ct.on_step(n, facts)
                 if want is not None and _is_inc(f, n, want):
                     k = count(facts)
                     return frozenset(x for x in facts if not (isinstance(x, tuple) and x[0] == 'inc')) | \
@@ -137,12 +149,17 @@ def r5_1(ctx):
                     if any(m.startswith(('FAIL_ON_', 'GOTO_EXIT_ON_')) for m in f.macros(n)):
                         return None
                     v = cu.const_of(cu.strip_casts(f, f.kid(n, 0))) if n.get('c') else 0
+                    e = cu.strip_casts(f, f.kid(n, 0)) if n.get('c') else None
+                    if v is None and e is not None and e['k'] == 'ref' and any(
+                            isinstance(x, tuple) and len(x) == 3 and x[1] == e['name'] and
+                            ((x[0] == 'ne' and x[2] == 0) or (x[0] == 'eq' and x[2] != 0)) for x in facts):
+                        return None         # `return error;` where error was found non-zero: a failure
                     if v in (0, None) and count(facts) != 1:
                         bad_ret.append((n, count(facts)))
                     return None
                 return facts
             try:
-                paths.explore(f, set(), step, None, start_block=nb[0], start_index=nb[1] + 1, max_states=512)
+                paths.explore(f, set(), step, edge, start_block=nb[0], start_index=nb[1] + 1, max_states=2048)
             except paths.Budget as e:
                 ctx.require(False, str(e))
             ok = not bad_ret
